@@ -4,14 +4,14 @@ import shutil
 
 from framework import scale, CaseResult, text_points
 from props import c01, c02
-from props.diskcommon import argv_sources, dmodel_outcome, ext_of, gen_sources, model_srcs, run_disk
+from props.diskcommon import argv_sources, dmodel_outcome, ext_of, gen_sources, gen_third_party, model_srcs, run_disk, write_third_party
 from props.tapecommon import CaseDir, gen_content, gen_source_path, materialize, model_outcome, real_path_of, run_tool
 
 GEN_FILES = ["GenDisk", "GenTape"]
 RULE = ("source lists as in C01/C02 (tape and both disk flavours). The same ordered list of (catalogue name, kind, content) is presented in up to six ways: twice in a row, "
         "quiet and verbose, sources reached by cwd-relative paths, by absolute paths, from directories whose names contain dots, target absent or present with arbitrary old "
         "bytes (shorter, equal, longer than an archive). Oracle on the real files: all the archives are byte-identical; every source file is byte-identical after every action; "
-        "list and extract (run twice) leave the archive byte-identical and never open it for writing. One variant is also compared with the extracted model. "
+        "list and extract (run twice) leave the archive byte-identical and never open it for writing - also on archives the tools did not write (independent writer, 1/2/4 sides, non-FF .sd padding, trailing bytes, bit flips, whether the tool reports or refuses). One variant is also compared with the extracted model. "
         "signature = (medium, n sources, flags {abs, dotted, old-target, verbose, eos}); non-trivial = at least one data-bearing source")
 ASSUMPTIONS = ["purity with respect to the environment (clock, locale, hash seed) is observed on repeated real runs, not proved; the byte-level dependence on the sources alone is the theorem"]
 
@@ -36,16 +36,82 @@ def gen_cases(rng, tier):
         else:
             srcs = gen_sources(rng, rng.choice([0, 1, 3, 6]), eos_rate=0.15, dirs=False, big_rate=0.03)
             cases.append({"medium": "disk", "is_fd": rng.random() < 0.5, "sources": srcs, "old": rng.choice([None, 0, 100, 1310720, 2000000, 3000000])})
+    nr = scale(tier, 16, 300)
+    for _ in range(nr):
+        # archives the tools did not write themselves, read by every reading action
+        if rng.random() < 0.3:
+            cases.append({"medium": "tape", "read": True, "sources": [{"arg": "a.bin", "content": gen_content(rng)}, {"arg": "b.bas", "content": gen_content(rng)}],
+                          "old": None, "trail": rng.choice([0, 1, 7, 300]), "flips": rng.choice([0, 0, 1, 3]), "mseed": rng.randint(0, 1 << 30), "verbose": rng.random() < 0.5})
+        else:
+            spec = gen_third_party(rng, max_files=3)
+            cases.append({"medium": "disk", "read": True, "is_fd": spec["is_fd"], "spec": spec, "sources": [], "old": None, "pad": rng.choice([0xFF, 0x00, 0xE5, "random"]),
+                          "trail": rng.choice([0, 0, 1, 7, 300]) if spec["nsides"] == 4 else 0, "flips": rng.choice([0, 0, 0, 2]), "mseed": rng.randint(0, 1 << 30), "verbose": rng.random() < 0.5})
     cases.append({"medium": "tape", "sources": [{"arg": "b.bin", "content": {"pat": "42", "len": 300}}], "old": 43008})
     cases.append({"medium": "disk", "is_fd": True, "sources": [{"arg": "b.bin", "content": {"pat": "42", "len": 300}}], "old": 1400000})
     cases.append({"medium": "disk", "is_fd": False, "sources": [{"arg": "b.bin", "content": {"pat": "42", "len": 300}}], "old": 2700000})
-    return cases, {"random": n, "fixed": 3}
+    return cases, {"random": n, "foreign archives read (non-FF padding, trailing bytes, flips)": nr, "fixed": 3}
 
 
 VARIANTS = [("rel", "", False), ("rel-verbose", "", True), ("dotted", "d.ot/x.y/", False), ("abs", "ABS", True), ("again", "", False)]
 
 
+def run_read_case(case, ctx):
+    """list and extract, quiet and verbose, twice, on an archive that is not laid out as the tools would write it: nothing is modified, whatever the outcome"""
+    import random
+    cd = CaseDir(ctx)
+    try:
+        tape = case["medium"] == "tape"
+        is_fd = case.get("is_fd", True)
+        rng = random.Random(case["mseed"])
+        bad = None
+        if tape:
+            arch = "in.k7"
+            args = []
+            for s in case["sources"]:
+                cd.put(s["arg"], materialize(s["content"]))
+                args.append(s["arg"])
+            r = run_tool(ctx, "tar", ["-c", arch] + args, cd)
+            raw = cd.get(arch)
+            if r.get("status") != 0 or raw is None:
+                return CaseResult(True, True, None, ["read", "tape", "create-refused"], False, skipped=True)
+        else:
+            arch = "in" + ext_of(is_fd)
+            raw, _truth = write_third_party(case["spec"])
+            if not is_fd and case["pad"] != 0xFF:
+                b = bytearray(raw)
+                for i in range(0, len(b), 512):
+                    b[i + 256:i + 512] = rng.randbytes(256) if case["pad"] == "random" else bytes([case["pad"]]) * 256
+                raw = bytes(b)
+        b = bytearray(raw)
+        for _ in range(case["flips"]):
+            if b:
+                b[rng.randrange(len(b))] ^= 1 << rng.randrange(8)
+        raw = bytes(b) + rng.randbytes(case["trail"])
+        cd.put(arch, raw)
+        vf = ["-v"] if case["verbose"] else []
+        for act in ("-t", "-x", "-x", "-t"):
+            if tape:
+                r = run_tool(ctx, "tar", [act] + vf + [arch], cd)
+            else:
+                r = run_disk(ctx, is_fd, [act] + vf + [arch], cd, timeout=120)
+            if cd.get(arch) != raw:
+                now = cd.get(arch)
+                bad = {"the archive changed during": act, "lens": [len(raw), None if now is None else len(now)], "status": r.get("status")}
+                break
+            if cd.rel(arch) in r["writes"]:
+                bad = {"the archive was opened for writing by": act}
+                break
+        f = ["read", case["medium"], "trail:%d" % min(case["trail"], 2), "flips:%d" % min(case["flips"], 1)]
+        if not tape:
+            f += ["pad:" + str(case["pad"]), "sides:%d" % case["spec"]["nsides"], ext_of(is_fd)]
+        return CaseResult(True, bad is None, {"disagreement": None, "oracle": bad} if bad else None, sorted(f), True)
+    finally:
+        cd.close()
+
+
 def run_case(case, ctx):
+    if case.get("read"):
+        return run_read_case(case, ctx)
     cd = CaseDir(ctx)
     try:
         tape = case["medium"] == "tape"
@@ -138,6 +204,13 @@ def run_case(case, ctx):
 
 
 def shrink_candidates(case):
+    if case.get("read"):
+        for k in ("trail", "flips"):
+            if case[k]:
+                yield dict(case, **{k: 0})
+        if case.get("pad", 0xFF) != 0xFF:
+            yield dict(case, pad=0xFF)
+        return
     s = case["sources"]
     for k in range(len(s)):
         yield dict(case, sources=s[:k] + s[k + 1:])
@@ -146,6 +219,8 @@ def shrink_candidates(case):
 
 
 def summarise(case):
+    if case.get("read"):
+        return {k: case.get(k) for k in ("medium", "read", "is_fd", "pad", "trail", "flips", "verbose")}
     return {"medium": case["medium"], "old": case["old"], "sources": [(s.get("eos") or [s["arg"], s["content"].get("len", 0)]) for s in case["sources"]][:6]}
 
 
